@@ -99,7 +99,7 @@ type Proc struct {
 	yields int
 	stepHits map[string]int
 	writes int
-	cancelled bool
+	cancelled atomic.Bool // written by the controller, read by the process goroutine
 	startStep, endStep int64
 }
 
@@ -534,8 +534,8 @@ func (k *Kernel) accept(a *arrival) {
 			}
 			continue
 		}
-		if c.Proc == g.proc.idx && c.AtYield == g.proc.yields && g.proc.cancel != nil && !g.proc.cancelled {
-			g.proc.cancelled = true
+		if c.Proc == g.proc.idx && c.AtYield == g.proc.yields && g.proc.cancel != nil && !g.proc.cancelled.Load() {
+			g.proc.cancelled.Store(true)
 			k.logf("cancel p%d at yield %d (%s)", g.proc.idx, g.proc.yields, a.point)
 			k.Stats.fault("cancel")
 			k.Stats.probe("cancel@" + pointClass(a.point))
